@@ -21,7 +21,7 @@ import tempfile
 import time
 import types
 
-from common import REPO, VERIF, coq_bool, coq_list, coq_string, sh
+from common import REPO, VERIF, coq_bool, coq_list, coq_string, sh, source_pins
 
 TRUSTED_BASE = [
     "Coq 8.16.1 kernel + coqc (vm_compute only for the finite generated program table, the concrete witnesses and the correspondence cases; no native_compute)",
@@ -44,6 +44,29 @@ RULE = ("systematic: every wrapper variant (work_in on absent/empty/non-empty di
         "and one run per fallible step failing (thorough: also pairs); seeded random stacks of depth 2-3 incl. recursion; the "
         "six execute closures with a fake executable; a case is non-trivial when a fault is injected, the wrapped function "
         "raises or changes state, or the stack is nested; distinct by (stack, pre-state, script, fault plan)")
+
+# Functions the HAND-WRITTEN parts (coq/C16/Effects.v semantics, Model.v program semantics, the harness's
+# scripted external program and Config tree) were written from and that tr/translate_c16.py does NOT already
+# translate or pin structurally (it translates work_in, work_in_tmp_dir, run_in_tmp_environment,
+# temporary_config, check_sufficient_memory in full, pins the decorators of run_external*, the six execute
+# methods incl. everything before the closure, XTB._remove_xtbopt_xyz_file and the POSIX module tail).
+PINS = [
+    # Model.v exec_bstmt/BExternal + harness program_term: the runner opens the output file, THEN starts the
+    # program, touches no cwd/env/Config itself (utils.py:146-221)
+    ("autode/utils.py", "run_external"),
+    ("autode/utils.py", "run_external_monitored"),
+    # MemoryCheck is an oracle step; the harness replaces this function to inject it (utils.py:84-89)
+    ("autode/utils.py", "get_total_memory"),
+    # observed only (level_note): fork, join(timeout), kill, return_value; worker initialiser (utils.py:540-592, 69-81)
+    ("autode/utils.py", "_timeout_default"),
+    ("autode/utils.py", "_copy_into_current_config"),
+    # Effects.v SaveConfig/RestoreConfig and the harness Config tree assume Config.__dict__ holds EVERY option as an
+    # instance attribute, nested sections being instances (config.py:399-459)
+    ("autode/config.py", "_instantiate_config_opts"),
+    ("autode/config.py", "_ConfigClass.__setattr__"),
+    # the fake calculation of the execute-closure streams deep-copies the keywords as the real input does (input.py:12-40)
+    ("autode/calculations/input.py", "CalculationInput.__init__"),
+]
 
 SLICE = ["C16/Effects.v", "C16/Model.v", "C16/Lemmas.v", "C16/Props.v", "C16/Corr.v", "gen/C16_Gen.v"]
 PRE = ("From Coq Require Import List String Bool Arith.\nFrom AV.lib Require Import QcInst.\n"
@@ -879,6 +902,10 @@ def jsonable_case(case):
 def run(ctx):
     sys.path.insert(0, REPO)
     full = not ctx.quick
+    pins_changed = source_pins(ctx.pid, PINS)
+    ctx.cov["source_pins"] = {"pinned": len(PINS), "changed": pins_changed}
+    if pins_changed:
+        ctx.log("source pins changed:", pins_changed)
     # 1. regenerate the model from the repository
     rc, out = sh(["python3", f"{VERIF}/tr/translate_c16.py"], timeout=120)
     ctx.log("translator:", out.strip()[:400])
@@ -928,7 +955,7 @@ def run(ctx):
                     terms.append(case_term(sb, c, r, base_tree))
                     descr.append({"stream": "single-wrapper", "case": jsonable_case(c), "observed": r["txt"]})
         # 3b. nested stacks (depth 2-3, incl. recursion of one decorated function)
-        nst = 50 if ctx.quick else 400
+        nst = 40 if ctx.quick else 400
         sub = [S[i] for i in (0, 1, 2, 3, 4, 6, 8, 10, 14, 16, 17, 20, 21) if i < len(S)]
         fixed = []      # depth 3 on ONE variable, every kind of prior value, return and raise (also as recursion)
         for val in (None, "7", "0", "", " "):
@@ -1071,6 +1098,9 @@ def run(ctx):
                            "coq_error": corr_err}, found_input=False)
         else:
             ctx.log("correspondence disagreements accompany the implementation-level findings above")
+    if pins_changed and nfail == 0 and not (corr_bad or corr_err) and proofs_ok:
+        ctx.violation("hand model no longer pinned to the source: " + ", ".join(pins_changed),
+                      {"kind": "source-pin", "changed": pins_changed}, found_input=False)
 
 
 def replay(ctx, obj):
